@@ -77,7 +77,8 @@ def job(j):
             k = json.dumps(sig, sort_keys=True)
             e = sigs.setdefault(k, [0, None, sig])
             e[0] += 1
-            cand = {"program": program, "history": hist, "choices": choices, "steer": choices is not None, "step": i, "why": why,
+            cand = {"program": program, "history": hist, "choices": None if choices == "lazy" else choices,
+                    "steer": "lazy" if choices == "lazy" else (choices is not None), "step": i, "why": why,
                     "observations": [dict(o, timing=list(o["timing"]) if o.get("timing") else None) for o in obs], "expect": "protocol",
                     "n_timings": n}
             if e[1] is None or len(json.dumps(cand)) < len(json.dumps(e[1])):
@@ -133,14 +134,15 @@ def job(j):
                     h = pre + [list(e) for e in seq]
                     if not h:
                         continue
-                    obs, env, _s, _b = hs.run_history(program, h)
+                    # canonical model order (first consistent admitted leaf): the same in every process
+                    obs, env, _s, _b = hs.run_history(program, h, leaves=leaves, steer="lazy")
                     res["runs"] += 1
                     res["calls"] += len(h)
                     res["outcomes"].add(repr([o.get("timing") for o in obs]))
                     bad, p = judge(program, leaves, obs)
                     res["states"].add(p.key())
                     if bad:
-                        record(h, None, obs, bad, "sequence")
+                        record(h, "lazy", obs, bad, "sequence")
         for k, (cnt, inst, sig) in sigs.items():
             res["viol"].append({"sig": sig, "count": cnt, "instance": inst})
         if j.get("want_sample"):
@@ -163,7 +165,7 @@ def replay_instance(inst):
     leaves = None
     if inst.get("steer"):
         leaves, *_ = hs.admitted_set(program)
-    obs, env, _s, _b = hs.run_history(program, inst["history"], choices=inst.get("choices"), leaves=leaves, steer=bool(inst.get("steer")),
+    obs, env, _s, _b = hs.run_history(program, inst["history"], choices=inst.get("choices"), leaves=leaves, steer=inst.get("steer") or False,
                                       solver_kw=inst.get("solver"))
     if leaves is None:
         leaves, *_ = hs.admitted_set(program, inst.get("solver"))
